@@ -1,5 +1,5 @@
 """Single source of truth for MANIFEST.json (bin/mkmanifest)."""
-HOOK_COMMITS = ["1948070", "0be6ff1", "25ace7b"]
+HOOK_COMMITS = ["1948070", "0be6ff1", "25ace7b", "2d7245c"]
 NOTES = ("All checks: bin/check <id> quick|thorough.  Each run: srcfacts regenerates coq/Src from /repo, make re-checks the "
          "Coq development, the Go harness is rebuilt from /repo with -tags verif, cases are generated from VERIF_SEED, "
          "the implementation and the model are run on them and compared, the Coq specification predicate is evaluated on "
@@ -76,4 +76,17 @@ CHECKS["C14"] = {
          "extraction. Real concurrent processes and the real service are outside the model; env edit --file sends no tag by design "
          "and is modelled as a blind writer (the class of the refuted theorem).",
  "technique": "machine-checked proof in Coq + model/implementation correspondence check (exhaustive interleavings)",
+}
+
+CHECKS["C13"] = {
+ "text": "Coq theorems over a model of the line-buffered output filter (Write/Close state machine, all-occurrence covering replacement, "
+         "threshold and placeholder read by srcfacts): for EVERY chunking of every stream the output equals the one-write output; "
+         "output is line-wise; clean text is unchanged; nothing is withheld after Close; every byte of every occurrence of a filtered "
+         "secret without inner newline is withheld (overlapping, nested, adjacent occurrences); byte-level corollary for secrets "
+         "independent of the placeholder; secret collection covers env vars, files and (nested) interpolated arguments; multi-line "
+         "secrets refuted (known finding). Correspondence: all 2^(n-1) chunkings of streams up to 11 (14 thorough) bytes on 20 "
+         "families, the aho-corasick library compared with its modelled match semantics, whole `esc run` commands through a hook",
+ "note": "Trusted: Coq kernel, srcfacts, correspondence harness, extraction. The aho-corasick automaton construction is modelled by its "
+         "match semantics (differentially tested each run); writer errors, OS pipe chunking and os/exec goroutines are outside the model.",
+ "technique": "machine-checked proof in Coq + model/implementation correspondence check (exhaustive chunkings)",
 }
